@@ -374,6 +374,16 @@ func permOf(bits uint32) fs.FileMode {
 	if bits&0o1000 != 0 {
 		perm |= fs.ModeSticky
 	}
+	// type bits, as in Chmod(dst, srcInfo.Mode()): a mode is more than its permission bits, the call uses only those
+	if bits&0o100000 != 0 {
+		perm |= fs.ModeDir
+	}
+	if bits&0o200000 != 0 {
+		perm |= fs.ModeSymlink
+	}
+	if bits&0o400000 != 0 {
+		perm |= fs.ModeNamedPipe | fs.ModeIrregular
+	}
 	return perm
 }
 
